@@ -16,6 +16,7 @@ CONSTANTS
   StaleTicks = 100000
   MaxNow = 14
   FixD1 = TRUE
+  SimDepth = 0
   Msgs <- MsgsSched
   Apps <- AppsSmall
 CONSTRAINT TimeBound
